@@ -100,6 +100,7 @@ func monitor(c hxlib.Case, outs []string) (vs []hxlib.Violation) {
 	}
 	items := map[string]*monItem{}
 	var mods [][]string // declared modules: name, prep, start, stop
+	subjDown := false   // the subject module (A) has been stopped and not started again
 	mgmt, startOK := false, false
 	firstCnt, lastSettle, lastSettleOthers := "", "", ""
 	firstPanicKind := "none"
@@ -169,11 +170,23 @@ func monitor(c hxlib.Case, outs []string) (vs []hxlib.Violation) {
 				endAtStop = true // items ending when the module stops: their reports race with the stop routine's
 			}
 		}
-		if (op == "manage" || op == "shutdown") && strings.HasPrefix(fl["st"], "offline") {
-			// the subject module was stopped: items waiting for its context have ended
-			for _, it := range items {
-				if it.flag == "onstop" {
-					it.held = false
+		if (op == "manage" || op == "shutdown") && fl["st"] != "" {
+			// status of the subject module (A; the statuses are listed in the order of the `mod` lines)
+			subj := 0
+			for k, m := range mods {
+				if m[0] == "A" {
+					subj = k
+				}
+			}
+			if sts := strings.Split(fl["st"], ","); subj < len(sts) {
+				subjDown = sts[subj] != "online"
+				if sts[subj] == "offline" {
+					// the subject module was stopped: items waiting for its context have ended
+					for _, it := range items {
+						if it.flag == "onstop" {
+							it.held = false
+						}
+					}
 				}
 			}
 		}
@@ -406,7 +419,9 @@ func monitor(c hxlib.Case, outs []string) (vs []hxlib.Violation) {
 					add("C06:api-panic-status:"+it.kind, "handler panicked before writing, response status "+fl["http"])
 				}
 			case it.kind == "svc":
-				if fl["next"] != "reentered" {
+				// "service workers are restarted" speaks of a module that is running: a service worker whose function ends
+				// after its module was stopped (it outlived the stop timeout) leaves its loop
+				if fl["next"] != "reentered" && !subjDown {
 					add("C06:service-worker-not-restarted", "service worker function panicked, afterwards: next="+fl["next"])
 				}
 			case strings.HasPrefix(it.kind, "task-"):
